@@ -127,6 +127,16 @@ func (tds *Conn) NewChannel() (*Channel, error) {
 			tds.tdsChannelsLock.Lock()
 			delete(tds.tdsChannels, channelId)
 			tds.tdsChannelsLock.Unlock()
+
+			// The reader goroutine may have looked the channel up
+			// already and be delivering into it - nobody is going to
+			// receive from it anymore.
+			tdsChan.closingLock.Lock()
+			if !tdsChan.isClosing {
+				tdsChan.isClosing = true
+				close(tdsChan.closing)
+			}
+			tdsChan.closingLock.Unlock()
 		}
 	}()
 
